@@ -40,6 +40,7 @@ src_st = st.fixed_dictionaries({
 })
 
 case_strategy = st.fixed_dictionaries({
+    "rep": skyimg.rep_strategy,      # how the image is stored (CD matrix, degenerate axes, BSCALE/BZERO)
     "proj": st.sampled_from(refs.ZWCS.PROJ),
     "crval": st.tuples(st.one_of(f(0, 360, exclude_max=True), st.sampled_from([0.002, 359.998])), f(-80, 80)),
     "scale": f(20, 60), "rows": st.integers(96, 160), "cols": st.integers(96, 160),
@@ -245,7 +246,7 @@ def check_case(c):
     d = workdir("c11_")
     try:
         path = os.path.join(d, "im.fits")
-        skyimg.write_fits(path, img, hdr)
+        skyimg.write_fits(path, img, hdr, rep=c.get("rep"))
         U = SourceFinder().find_sources_in_image(path, rms=rms, bkg=0.0, innerclip=seedclip, outerclip=floodclip,
                                                  docov=c["docov"], cores=1)
         R = SourceFinder().find_sources_in_image(path, rms=rms, bkg=0.0, innerclip=seedclip, outerclip=floodclip,
